@@ -308,7 +308,7 @@ func c05HistWeightClass(w *c05World) string { return c05WeightClass(w.weights) }
 func TestVerifC05Histories(t *testing.T) {
 	c05Quiet()
 	p := vreport.Begin("C05", "histories-bfs", time.Duration(vreport.Pick(6, 40))*time.Minute)
-	depth := vreport.Pick(5, 6)
+	depth := vreport.Pick(5, 7)
 	shardI, shardN := vreport.Shard()
 	alphabet := c05AlphabetFor(3) // largest set has 3 hosts
 
@@ -370,7 +370,7 @@ func TestVerifC05Histories(t *testing.T) {
 				if res.violation != c05OK {
 					v = &verdict{c05Key(pol, c05HistWeightClass(w), res.violation), res.detail}
 				} else if inv := w.snapshotInvariant(); inv != "" {
-					v = &verdict{fmt.Sprintf("lb=%s cluster snapshot after %s: %s", pol, e.Kind, c05InvKind(inv)), inv}
+					v = &verdict{fmt.Sprintf("lb=%s cluster snapshot: %s", pol, c05InvKind(inv)), "after " + e.Kind + ": " + inv}
 				}
 				if res.outcome != "" {
 					p.Outcome(c.Policy + "|" + c05HistWeightClass(w) + "|" + e.Kind + "|" + res.outcome)
